@@ -127,6 +127,12 @@ def run(m, rep, tier):
     v7 = rep.rule('V7', 'scratch slot is element index cap; setter allocates (request+1)*size and records request', floor=3)
     check_scratch(m, v7)
 
+    # ---- V8: swap completeness ------------------------------------------------------------
+    from .util import check_swap_complete
+    _sw = rep.rule('V8', 'swap exchanges every member of the two vectors (storage, counts and the element constructor / destructor description)', floor=1)
+    for _n in ('cstl_vector_swap',):
+        check_swap_complete(m, _n, _sw)
+
 
 def check_at(m, f, rule, lenfield, index_arg='$1'):
     pv = Prover(f)
